@@ -85,9 +85,9 @@ BOUNDS = {
     'thorough': 'grammar: <= 5 nodes over the full leaves, 6 documents, 6 nodes, 2 documents; nests: depth <= 3 over 57 binders, '
                 '3 documents; depth 4 over 24 binders (values $ $x), 1 document; name nests depth <= 2, 3 documents; '
                 'host override: grammar <= 4 nodes, 6 documents, nests depth <= 2, 3 documents; '
-                'element errors: 10 partial expressions x 13 carriers x 5 consumers (2 for dictionaries) over all 341 documents of <= 4 '
+                'element errors: 10 partial expressions x 13 carriers x 5 consumers (2 for dictionaries) over all 85 documents of <= 3 '
                 'rows with inner collections [] [a] [a,b] [b,a,c]; library names: 2 forms x 12 names (+ last toList single with toDict) x '
-                '25/26 bodies x 27/28 uses x 5 shapes (+ next to the scope, rebinding inside / outside), 3 documents',
+                '25/26 bodies x 27/28 uses x 5 shapes (+ next to the scope, rebinding inside / outside), 2 documents',
 }
 
 # ---------------------------------------------------------------------------------
@@ -518,7 +518,6 @@ LIBNAMES = {'q': LIBNAMES_QUICK, 't': LIBNAMES_FULL}
 SHADOW_DOCS = {
     'xs:mixed': {'xs': [3, 0, 2], 'ys': [[1, 2], [], [3]]},
     'xs:empty': {'xs': [], 'ys': [[], [4]]},
-    'xs:one': {'xs': [2], 'ys': [[5]]},
 }
 XS, YS = ('attr', ('var', ''), 'xs'), ('attr', ('var', ''), 'ys')
 
@@ -838,9 +837,9 @@ def jobs(tier, seed):
             grammar('full', n, DOCS, 1, 'host-grammar')
         nests('full', 1, NEST_DOCS, 1, 'host-nest')
         nests('full', 2, NEST_DOCS, 2, 'host-nest')
-        for k in range(32):
-            out.append(('elem-t4-%d' % k, 'job_elem', ('t', 4, k, 32)))
-        for name in sorted(SHADOW_DOCS):
+        for k in range(16):
+            out.append(('elem-t3-%d' % k, 'job_elem', ('t', 3, k, 16)))
+        for name in ('xs:mixed', 'xs:empty'):
             for k in range(16):
                 out.append(('shadow-t-%s-%d' % (name, k), 'job_shadow', ('t', SHAPES_FULL, name, k, 16)))
     return out
